@@ -523,18 +523,23 @@ def c12(c):
     exe = vlib.build_harness(race=True)
     racedir = os.path.join(c.dir, "race")
     os.makedirs(racedir, exist_ok=True)
-    # one driver process per start-up GOMAXPROCS value (0 = inherited): programs with envgmp = g run in a process started with GOMAXPROCS=g
+    # one driver process per start-up GOMAXPROCS value (0 = inherited): programs with envgmp = g run in a process started with GOMAXPROCS=g;
+    # the sustained-overlap programs (reps > 1) run on the plain build: several times more calls per second than under the race detector,
+    # which is what makes an overlap inside a short critical window likely
     groups = {}
     for ln in open(progs):
-        groups.setdefault(json.loads(ln).get("envgmp", 0), []).append(ln)
+        pr = json.loads(ln)
+        groups.setdefault((pr.get("envgmp", 0), pr.get("reps", 1) > 1), []).append(ln)
     files = []
-    for g, lines in sorted(groups.items()):
-        pf = os.path.join(c.dir, "programs.conc.env%d.ndjson" % g)
+    plain = vlib.build_harness()
+    for (g, stress), lines in sorted(groups.items()):
+        tag = "env%d%s" % (g, "s" if stress else "")
+        pf = os.path.join(c.dir, "programs.conc.%s.ndjson" % tag)
         open(pf, "w").write("".join(lines))
-        env = {"GORACE": "log_path=%s/report halt_on_error=0 exitcode=0 history_size=3" % racedir}
+        env = {} if stress else {"GORACE": "log_path=%s/report halt_on_error=0 exitcode=0 history_size=3" % racedir}
         if g:
             env["GOMAXPROCS"] = g
-        files += c.drive("conc", pf, name="tr.env%d" % g, shards=len(lines), binary=exe, timeout=7200, env=env)
+        files += c.drive("conc", pf, name="tr." + tag, shards=len(lines), binary=(plain if stress else exe), timeout=7200, env=env)
     # sensor: race detector reports become `race` events of an extra trace
     reports = []
     for f in sorted(os.listdir(racedir)):
